@@ -485,6 +485,7 @@ package dnsmsg
 // reached through m's arrays only); other messages' headers and section arrays are untouched
 //@   modifies *m, obj(m.Questions), obj(m.Answers), obj(m.Authorities), obj(m.Additionals), field(dnsmsg.Question), field(dnsmsg.ResourceHdr), field(dnsmsg.A), field(dnsmsg.AAAA), field(dnsmsg.MX), field(dnsmsg.NAMEResource), field(dnsmsg.SOA), field(dnsmsg.SRV), field(dnsmsg.RawResource), bytes()
 //@   ensures [C20:buffers-untouched] rootBytesKept()
+//@   ensures [C20:marks-released] attr(released, m)
 //@   loop 1:
 //@     invariant forall(k, 0, len(m.Questions), m.Questions[k] != nil) && okRecs(m.Answers) && okRecs(m.Authorities) && okRecs(m.Additionals)
 //@     invariant rootBytesKept()
